@@ -41,8 +41,8 @@ def bitsStr (l : List Bool) : String :=
 def errStr : Err → String
   | .nTooBig => "err:ntoobig"
   | .pTooBig => "err:ptoobig"
-  | .eof => "err:eof"
-  | .nonCanonical => "err:noncanon"
+  | .eof => "err:decode"
+  | .nonCanonical => "err:decode"
 
 def natsStr (l : List Nat) : String :=
   if l.isEmpty then "-" else ",".intercalate (l.map toString)
@@ -76,8 +76,8 @@ def readAll (p : Nat) : Nat → List Bool → List Nat
 
 def berrStr : BErr → String
   | .pTooBig => "err:ptoobig"
-  | .pNotSet => "err:pnotset"
-  | .mNotSet => "err:mnotset"
+  | .pNotSet => "err:notset"
+  | .mNotSet => "err:notset"
   | .nTooBig => "err:ntoobig"
 
 def key16? (s : String) : Option Bytes :=
@@ -236,7 +236,7 @@ def handle : List String → String
   | ["rd", p, d, max] =>
     match p.toNat?, hexToList? d, max.toNat? with
     | some p, some d, some max =>
-      if p > 64 then "bad-op" else natsStr (readAll p max (unpackBits d))
+      if p > 32 then "bad-op" else natsStr (readAll p max (unpackBits d))
     | _, _, _ => "bad-op"
   | ["gcs", p, m, key, items, qs] =>
     match p.toNat?, m.toNat?, hexToList? key, parseItems? items, parseItems? qs with
